@@ -150,7 +150,7 @@ Section Failure.
     | COk =>
       ([ev; EPutAValues t (record_applied i (c_avalues C) (aview C) (view C) ch);
         EPutCfg t (C <| c_applied := i |> <| c_inline := touched i (view C) ch |> <| c_ainline := v_empty |>);
-        EPutProp (t, i) (P <| p_apply := Some Done |> <| p_term := c_term C |>)], RDone)
+        EPutProp (t, i) (P <| p_apply := Some Done |> <| p_term := c_term C |>)], requeue_next t P)
     | _ =>
       match classify (observed a) with
       | ClsRetry => ([ev], RRetry)
@@ -159,7 +159,7 @@ Section Failure.
         ([ev; EPutProp (t, i) (P <| p_apply := Some Failed |> <| p_afail := Some f |> <| p_term := c_term C |>);
           EPutAValues t (restore (c_avalues C) (aview C));
           EPutCfg t (C <| c_applied := i |> <| c_inline := touched i (view C) ch |> <| c_ainline := v_empty |>)],
-         if p_next P =? 0 then RDone else RRequeueProp (t, p_next P))
+         requeue_next t P)
       end
     end.
 
@@ -230,7 +230,7 @@ Section Failure.
       ([EDev (DevSet t m (c_term C) (Some i) req COk);
         EPutAValues t (record_applied i (c_avalues C) (aview C) (view C) (rb_change P));
         EPutCfg t (C <| c_applied := i |> <| c_inline := touched i (view C) (rb_change P) |> <| c_ainline := v_empty |>);
-        EPutProp (t, i) (P <| p_apply := Some Done |> <| p_term := c_term C |>)], RDone).
+        EPutProp (t, i) (P <| p_apply := Some Done |> <| p_term := c_term C |>)], requeue_next t P).
   Proof.
     intros Hs Ha. rewrite (rec_prop_send o w t i P C m req Hs), Ha. reflexivity.
   Qed.
@@ -299,7 +299,7 @@ Section Failure.
         EPutProp (t, i) (P <| p_apply := Some Failed |> <| p_afail := Some f |> <| p_term := c_term C |>);
         EPutAValues t (restore (c_avalues C) (aview C));
         EPutCfg t (C <| c_applied := i |> <| c_inline := touched i (view C) (rb_change P) |> <| c_ainline := v_empty |>)],
-       if p_next P =? 0 then RDone else RRequeueProp (t, p_next P)).
+       requeue_next t P).
   Proof.
     intros Hs Hne Hc. rewrite (rec_prop_send o w t i P C m req Hs). unfold after_answer. rewrite Hc.
     destruct (dev_answer w t (c_term C) o); try reflexivity. exfalso; apply Hne; reflexivity.
@@ -390,7 +390,7 @@ Section Failure.
   Proof.
     intros HQ Ha HC Hc. unfold Proto2.rec_prop. rewrite HQ, Ha, HC, Hc, N.eqb_refl.
     replace (negb (p_prev Q =? 0) && negb true) with false by (symmetry; apply andb_false_r).
-    destruct_matches; discriminate.
+    unfold requeue_next. destruct_matches; discriminate.
   Qed.
 
   (* after a refused apply of (t,i) the successor (PrevIndex = i) that is APPLYING is sendable as soon as its own
